@@ -1549,7 +1549,14 @@ class BDD(dd._abc.BDD[_Ref]):
         self._pred[t] = u
         self._succ[u] = t
         self._ref[u] = 0
-        self._min_free = self._next_free_int(u)
+        try:
+            self._min_free = self._next_free_int(u)
+        except RuntimeError:
+            # full: leave the manager as it was
+            del self._pred[t]
+            del self._succ[u]
+            del self._ref[u]
+            raise
         # increment reference counters
         self.incref(v)
         self.incref(w)
